@@ -257,6 +257,29 @@ def run(prog: Program, res: Result, tier: str) -> None:
                             f"{fi.short}: identifier variable `{node.id}` "
                             f"({k}) is used without the renaming in "
                             f"`{norm(p, 80)}`", instance=inst)
+            # attributes of descriptor variables that hold identifiers
+            for node in ast.walk(fi.node):
+                if isinstance(node, ast.Attribute) and node.attr in (
+                        "atoms", "bond", "central_atom") and isinstance(
+                        node.value, ast.Name) and kinds.kind_at(
+                        node.value) == "STEREO":
+                    p = parent(node)
+                    n_flows += 1
+                    inst = f"{fi.short}: `{norm(node)}` in `{norm(p, 70)}`"
+                    ok = False
+                    if isinstance(p, (ast.For, ast.comprehension)) and \
+                            p.iter is node:
+                        ok = True
+                    elif node.attr == "central_atom" and isinstance(
+                            p, ast.Call) and is_rho(p, mapping):
+                        ok = True
+                    if ok:
+                        res.ok("R-RENAME-ALL", inst, fi.loc(node))
+                    else:
+                        res.bad("R-RENAME-ALL", inst, fi.loc(node),
+                                f"{fi.short}: the identifiers in "
+                                f"`{norm(node)}` are used without the "
+                                f"renaming in `{norm(p, 80)}`", instance=inst)
         # R-REBUILD-SOURCE: each slot is rebuilt from the same slot of self
         from ..core import DefUse
         for fi in chain:
